@@ -3,7 +3,7 @@ worktree of /repo under /tmp, removed afterwards).  Usage: run_seeded.py [ids...
 import json, os, subprocess, sys, shutil
 V = os.path.dirname(os.path.dirname(os.path.abspath(__file__)))
 ids = sys.argv[1:] or sorted(d for d in os.listdir(os.path.join(V, 'seeded')) if os.path.isdir(os.path.join(V, 'seeded', d)))
-respath = os.path.join(V, 'seeded', 'RESULTS.json')
+respath = os.environ.get('SEEDED_RESULTS') or os.path.join(V, 'seeded', 'RESULTS.json')
 results = json.load(open(respath)) if os.path.exists(respath) else {}
 for sid in ids:
     d = os.path.join(V, 'seeded', sid)
